@@ -86,6 +86,19 @@ def report(v, rows, tr, what):
         if ln < 1 or (inv, ln) in seen:
             continue
         seen.add((inv, ln))
+        if inv == "TRunIds":
+            end = rows[ln - 1]
+            begins = [r for r in rows[end.get("first", 1) - 1:ln] if r["ev"] == "Begin"]
+            idl = [r["id"] for r in begins]
+            dup = sorted({i for i in idl if idl.count(i) > 1})[:5] if len(idl) < 20000 else []
+            v.violation("ids inv=TRunIds",
+                        "%d instances x %d acquisitions on one provider: %d shots carried %d distinct ammo ids (e.g. repeated: %s) — "
+                        "ids are not injective within the run" % (end["n"], end["r"], len(idl), len(set(idl)), dup),
+                        replay_obj={"kind": "ids", "invariant": inv, "case": None,
+                                    "events": [{"ev": "RunBegin", "n": end["n"], "r": end["r"]}] + begins +
+                                              [dict(end, first=1)]},
+                        replay_name="ids_TRunIds.json")
+            continue
         begin, shot = _shot_of(rows, ln)
         c = begin["c"] if begin else {"kind": "?"}
         reps = [{k: r.get(k) for k in ("tags", "id", "proto", "net", "err")} for r in shot if r["ev"] == "Report"]
